@@ -139,7 +139,7 @@ fn run_write_plan(p: &Value, tr: &mut Tracer) {
         script.set_wfail_kind(w.get("failkind").and_then(|x| x.as_str()).unwrap_or("brokenpipe"));
         let r = do_write(&script, &mut l, payload.clone());
         tr.event(json!({"ev": "write", "payload": payload, "res": r.res, "ek": r.ek, "accepted": r.accepted, "calls": r.calls, "failed": r.failed, "zero": r.zero}));
-        if r.res != "ok" { break; }
+        // no stop after a failed write: the message handed over NEXT is owed exactly its own frame (or a refusal)
     }
 }
 
